@@ -281,8 +281,58 @@ def r3_canonical_shapes(ctx):
     ctx.check(ok, R, ce.key + "|lookup", "canonical_tuple reads Executor.canonical_tuples", "canonical_tuple no longer consults the table", ce.loc(0))
 
 
+def r4_process_handle_identity(ctx):
+    R = "R-C13-4"
+    ctx.rule(R, "a process handle means the same process wherever it was produced: Value::Process(pid, function_index) is constructed only at the "
+                "reviewed sites, and the handle a process makes of ITSELF (handle_self) takes function_index from the process's ENTRY frame "
+                "(frames.first()), the same index the spawn result carries — never from the frame that happens to be running (equality compares both "
+                "components)")
+    F = ctx.facts
+    allowed = {
+        EXEC + "::handle_self": "self handle",
+        EXEC + "::handle_process_ref": "Instruction::Process payload (emitted from environment data)",
+        "quiver_core::executor::remap_heap_indices": "copy of an existing handle",
+        "quiver_environment::worker::Worker::handle_command": "spawn notification: the spawned function's index from the environment's command",
+    }
+    n = 0
+    for body in F.bodies():
+        if body.fn.get("derived") or body.fn["crate"] not in ("quiver_core", "quiver_environment", "quiver_io"):
+            continue
+        for bi, si, s in agg_sites(body, "value::Value", "Process"):
+            n += 1
+            base = body.key.split("::{closure")[0]
+            site = "%s|Value::Process" % base
+            if "_serde" in body.key or "eserialize" in body.key or "Clone" in body.key:
+                continue
+            ctx.check(base in allowed, R, site, "reviewed construction site (%s)" % allowed.get(base, ""),
+                      "a process handle is fabricated outside the reviewed sites: handles of one process made in different places may not compare equal",
+                      body.loc(bi, si))
+    ctx.floor(R, "Value::Process construction sites", n, 3)
+    hs = F.body(EXEC + "::handle_self")
+    fl = Flow(hs, through_named=True)
+    for bi, si, s in agg_sites(hs, "value::Value", "Process"):
+        ops = s["rv"]["ops"]
+        p = op_place(ops[1]) if len(ops) > 1 else None
+        TC = ("Option::ok_or", "Try::branch", "Option::unwrap", "Option::expect", "Option::map", "Deref::deref", "Option::unwrap_or", "Option::ok_or_else")
+        callees = set()
+        fields = set()
+        if p:
+            back = fl.backward({p["l"]}, through_calls=TC + ("slice::first", "slice::last", "Vec::first", "Vec::last", "slice::get", "Vec::get", "Index::index",
+                                                            "slice::first_mut", "slice::last_mut", "Vec::last_mut", "Vec::first_mut"))
+            for b2, t2 in hs.calls():
+                if t2["dest"]["l"] in back:
+                    callees.add((t2.get("callee") or "").split("::")[-1])
+            fields = fl.slice_reads(p["l"], through_calls=TC + ("slice::first", "slice::last", "slice::first_mut", "slice::last_mut"))[0]
+        from_frames = any(f == "frames" and (o or "").endswith("process::Process") for o, f in fields) and any(f == "function_index" for _o, f in fields)
+        first = "first" in callees or "first_mut" in callees
+        other = callees & {"last", "last_mut", "get", "index", "get_mut", "index_mut", "pop"}
+        ctx.check(from_frames and first and not other, R, hs.key + "|entry-frame", "function_index = process.frames.first().function_index",
+                  "handle_self takes the handle's function index from %s instead of the entry frame (frames.first()): a pid obtained inside a called "
+                  "function differs from every other handle of the same process" % (sorted(other) or "something else"), hs.loc(bi, si))
+
+
 def run(ctx):
-    ctx.run_rules([r1_equality_table, r2_ref_minting, r3_canonical_shapes])
+    ctx.run_rules([r1_equality_table, r2_ref_minting, r3_canonical_shapes, r4_process_handle_identity])
     return (
         "Decides: coverage/symmetry of the values_equal variant-pair table (diagonal explicit, off-diagonal false, all binary representation "
         "pairs compared by content, tuples by canonical shape), single minting site for refs with an advancing counter and unchanged worker-id "
